@@ -341,7 +341,7 @@ theorem C04_case_mode (isHtml : Bool) :
   cases isHtml <;> exact ⟨rfl, rfl, rfl, rfl⟩
 
 /-- **C04_attr_compiled.** The closure the compiler builds for `[name op "value" flag]`
-(compiler.rs:158-189), run on any element: it never panics, and — unless the operand is empty and
+(compiler.rs:153-184), run on any element: it never panics, and — unless the operand is empty and
 the operator is `^=`/`$=`/`~=` — it fires iff the *first* attribute whose name equals `name`
 ASCII-case-insensitively exists and its value satisfies the CSS definition of the operator in the
 resolved case mode. ∀ attribute lists (duplicates, any case), names, values, operands. -/
@@ -412,7 +412,7 @@ example :
       .asciiCaseInsensitive .pre) ⟨[([68, 65, 84, 65, 45, 75], [65, 98])], true⟩ = some true := by
   decide
 
-/-- Negation (`:not([…])`, compiler.rs:103-109) flips the answer and nothing else. -/
+/-- Negation (`:not([…])`, compiler.rs:98-108) flips the answer and nothing else. -/
 theorem C04_attr_compiled_negation (e : OnAttributesExpr) (m : AttributeMatcher) :
     compiledAttrExpr true e m = (compiledAttrExpr false e m).map not := by
   simp only [compiledAttrExpr, Option.map_map]
